@@ -22,8 +22,25 @@ def ratio(n, d):
     return Opaque('Ratio', (n, d))
 
 
+def bigbv(t):
+    """a non-negative big integer still held as a (wide enough, never wrapping) bit-vector: keeps queries that only
+    scale / add / compare machine integers inside the bit-vector theory"""
+    return Opaque('BigBV', (t,))
+
+
+def bvform(it, st, v):
+    v = deref(it, st, v)
+    if isinstance(v, Opaque) and v.kind == 'BigBV':
+        return v.data[0]
+    if isinstance(v, z3.ExprRef) and z3.is_bv(v):
+        return v
+    return None
+
+
 def ival(it, st, v):
     v = deref(it, st, v)
+    if isinstance(v, Opaque) and v.kind == 'BigBV':
+        return z3.BV2Int(v.data[0], False)
     if isinstance(v, Opaque) and v.kind == 'BigInt':
         return v.data[0]
     if isinstance(v, z3.ExprRef) and z3.is_bv(v):
@@ -40,7 +57,7 @@ def rval(it, st, v):
 
 @summary(r'^<(num::)?(BigInt|BigUint) as From<(u8|u16|u32|u64|u128|usize)>>::from$')
 def _big_from_unsigned(it, st, args, ctx):
-    return big(z3.BV2Int(args[0], False))
+    return bigbv(args[0])
 
 
 @summary(r'^<(num::)?(BigInt) as From<(i8|i16|i32|i64|i128)>>::from$')
@@ -53,6 +70,12 @@ def _big_from_signed(it, st, args, ctx):
 
 @summary(r'^<(&)?(BigInt|BigUint) as (std::ops::)?(Mul|Add|Sub)(<.*>)?>::(mul|add|sub)$')
 def _big_arith(it, st, args, ctx):
+    xa, xb = bvform(it, st, args[0]), bvform(it, st, args[1])
+    opn = ctx.callee.rsplit('::', 1)[1]
+    if xa is not None and xb is not None and opn in ('mul', 'add') and xa.size() + xb.size() <= 512:
+        w = xa.size() + xb.size() if opn == 'mul' else max(xa.size(), xb.size()) + 1
+        ea, eb = z3.ZeroExt(w - xa.size(), xa), z3.ZeroExt(w - xb.size(), xb)
+        return bigbv(ea * eb if opn == 'mul' else ea + eb)
     a, b = ival(it, st, args[0]), ival(it, st, args[1])
     op = ctx.callee.rsplit('::', 1)[1]
     if op == 'mul':
@@ -213,3 +236,37 @@ def _ratio_numer(it, st, args, ctx):
     if not (z3.is_int_value(simp(d)) and simp(d).as_long() == 1):
         raise Unsupported('Ratio::numer of a non-integral ratio')
     return Ptr(st.alloc(big(n if ctx.callee.endswith('numer') else d)))
+
+
+@summary(r'^<&?(BigInt|BigUint) as (PartialOrd|Ord|PartialEq)(<.*>)?>::(partial_cmp|cmp|eq|ne|lt|le|gt|ge)$')
+def _big_cmp(it, st, args, ctx):
+    op = ctx.callee.rsplit('::', 1)[1]
+    xa, xb = bvform(it, st, args[0]), bvform(it, st, args[1])
+    if xa is not None and xb is not None:
+        w = max(xa.size(), xb.size())
+        ea, eb = z3.ZeroExt(w - xa.size(), xa), z3.ZeroExt(w - xb.size(), xb)
+        if op in ('eq', 'ne', 'lt', 'le', 'gt', 'ge'):
+            return {'eq': ea == eb, 'ne': ea != eb, 'lt': z3.ULT(ea, eb), 'le': z3.ULE(ea, eb), 'gt': z3.UGT(ea, eb),
+                    'ge': z3.UGE(ea, eb)}[op]
+        d = z3.If(z3.ULT(ea, eb), bv(-1, 8), z3.If(ea == eb, bv(0, 8), bv(1, 8)))
+        o = EnumV('Ordering', d, {'Less': (), 'Equal': (), 'Greater': ()})
+        return mk_some(o) if op == 'partial_cmp' else o
+    a, b = ival(it, st, args[0]), ival(it, st, args[1])
+    if op in ('eq', 'ne', 'lt', 'le', 'gt', 'ge'):
+        return {'eq': a == b, 'ne': a != b, 'lt': a < b, 'le': a <= b, 'gt': a > b, 'ge': a >= b}[op]
+    d = z3.If(a < b, bv(-1, 8), z3.If(a == b, bv(0, 8), bv(1, 8)))
+    o = EnumV('Ordering', d, {'Less': (), 'Equal': (), 'Greater': ()})
+    return mk_some(o) if op == 'partial_cmp' else o
+
+
+@summary(r'^<(BigInt|BigUint) as (std::ops::)?(Mul|Add)<(u8|u16|u32|u64|u128)>>::(mul|add)$')
+def _big_arith_prim(it, st, args, ctx):
+    xa = bvform(it, st, args[0])
+    if xa is not None:
+        xb = args[1]
+        w = xa.size() + xb.size() if ctx.callee.endswith('mul') else max(xa.size(), xb.size()) + 1
+        ea, eb = z3.ZeroExt(w - xa.size(), xa), z3.ZeroExt(w - xb.size(), xb)
+        return bigbv(ea * eb if ctx.callee.endswith('mul') else ea + eb)
+    a = ival(it, st, args[0])
+    b = z3.BV2Int(args[1], False)
+    return big(a * b if ctx.callee.endswith('mul') else a + b)
